@@ -4,19 +4,29 @@
    Status: the per-site rejection theorems and the tolerated irregularities are proved in full.  The global
    statement "every proper prefix of every well-formed document that ends inside header / string table / leading
    PIs / root element is an error" is proved (the C13_truncated_document_refused theorems), by a second structural induction
-   over the document (Proofs/ParserProofsPrefix{,2,3,4}.v) next to the one of C04: full for tables without a
-   Wireless Village entry, and for all tables under the same single premise as C04 (typed_wv_agree, needed only
-   to know that the COMPLETE items before the cut parse).  The check still explores every proper prefix of every
-   generated document on the C and on the model. *)
+   over the document (Proofs/ParserProofsPrefix{,2,3,4}.v) next to the one of C04, in full
+   (C13_truncated_document_refused).  The check still explores every proper prefix of every generated document on
+   the C and on the model. *)
 From Coq Require Import String.
 From Coq Require Import List NArith Bool.
 From Wbxml Require Import Model.Codec Model.TablesDefs Gen.TablesData Model.Parser Model.Spec
      Proofs.ParserProofsBase Proofs.ParserProofsStr Proofs.ParserProofsReject Proofs.ParserProofsDoc
-     Proofs.ParserProofsTyped Proofs.ParserProofsPrefix Proofs.ParserProofsPrefix4.
+     Proofs.ParserProofsTyped Proofs.ParserProofsPrefix Proofs.ParserProofsPrefix4 Proofs.ParserProofsWv.
 Import ListNotations.
 Local Open Scope N_scope.
 
-(* ---- THE GLOBAL STATEMENT ---- *)
+(* ---- THE GLOBAL STATEMENT — FULL, unconditional ---- *)
+(* upto_root d = header ++ string table ++ leading PIs ++ root element of serialize d *)
+Theorem C13_truncated_document_refused : forall tbl d evs n,
+  denote tbl d = Some evs -> (n < length (upto_root d))%nat ->
+  exists e, parse tbl (S n) (firstn n (serialize d)) = PErr e.
+Proof.
+  intros tbl d evs n. apply (truncated_refused tbl); [|exact typed_datetime_agree_proved].
+  intros l _ _. exact typed_wv_agree_proved.
+Qed.
+Print Assumptions C13_truncated_document_refused.
+
+(* ---- earlier forms of the global statement (kept for reference) ---- *)
 (* upto_root d = header ++ string table ++ leading PIs ++ root element of serialize d.
    FULL for every table without a Wireless Village entry. *)
 Theorem C13_truncated_document_refused_non_wv : forall tbl,
